@@ -940,6 +940,8 @@ class Interp:
             if callee.name in self.idx.classes:
                 return self.construct(callee.name, args, kwargs)
             if callee.name == "Token":
+                if isinstance(args[0], str) and isinstance(args[1], str):
+                    return Tok(str(args[0]), str(args[1]))
                 return AObj("Token", {"type": args[0], "value": args[1]}, label=f"Token({to_text(args[0])},{to_text(args[1])})")
             raise Unsupported(f"construct {callee.name}")
         if isinstance(callee, Closure):
